@@ -16,14 +16,14 @@ open Martian Martian.Tunnel
 
 /-- Client → target: at every quiescent point the target has been written exactly the early data
 (sent in the same segment as the CONNECT head) followed by everything the client has sent since. -/
-theorem tunnel_transparent_up (cfg : Cfg) (ahead early : Bytes) (up down : List Ev) :
-    bytesOf (handleConnect cfg (.ok ahead) early up down).toTarget = early ++ sentBy up := by
+theorem tunnel_transparent_up (cfg : Cfg) (st : Nat) (ahead early : Bytes) (up down : List Ev) :
+    bytesOf (handleConnect cfg (.answered st ahead) early up down).toTarget = early ++ sentBy up := by
   simp [handleConnect, handleConnectWith, upPump, run_bytes]
 
 /-- Target → client: after the response head the client has been written exactly the bytes the
 proxy had read ahead with the downstream proxy's head, followed by everything sent since. -/
-theorem tunnel_transparent_down (cfg : Cfg) (ahead early : Bytes) (up down : List Ev) :
-    bytesOf (handleConnect cfg (.ok ahead) early up down).toClient = ahead ++ sentBy down := by
+theorem tunnel_transparent_down (cfg : Cfg) (st : Nat) (ahead early : Bytes) (up down : List Ev) :
+    bytesOf (handleConnect cfg (.answered st ahead) early up down).toClient = ahead ++ sentBy down := by
   cases ahead <;> simp [handleConnect, handleConnectWith, downPump, run_bytes]
 
 /-- At every quiescent point neither pump holds a byte it has not written. -/
@@ -33,9 +33,9 @@ theorem nothing_retained_at_quiescence (cfg : Cfg) (early : Bytes) (up down : Li
 
 /-- What has been delivered at one quiescent point is a prefix of what is delivered at any later one
 (nothing is taken back, reordered or duplicated by later traffic). -/
-theorem delivery_only_grows (cfg : Cfg) (ahead early : Bytes) (up more down : List Ev) :
-    ∃ rest, bytesOf (handleConnect cfg (.ok ahead) early (up ++ more) down).toTarget =
-      bytesOf (handleConnect cfg (.ok ahead) early up down).toTarget ++ rest := by
+theorem delivery_only_grows (cfg : Cfg) (st : Nat) (ahead early : Bytes) (up more down : List Ev) :
+    ∃ rest, bytesOf (handleConnect cfg (.answered st ahead) early (up ++ more) down).toTarget =
+      bytesOf (handleConnect cfg (.answered st ahead) early up down).toTarget ++ rest := by
   rw [tunnel_transparent_up, tunnel_transparent_up]
   cases h : closes up with
   | false => exact ⟨sentBy more, by simp [sentBy_append_of_open _ _ h]⟩
@@ -46,10 +46,10 @@ connection broke (reset, deadline) or because the target stopped taking bytes: `
 difference — the target is told so (CloseWrite) without any further input, exactly once, after every
 byte that was forwarded before; nothing is written after it, and the only thing that may follow is
 the final graceful `Close` once the other direction has ended too. -/
-theorem end_propagates_to_target (cfg : Cfg) (ahead early : Bytes) (up down : List Ev)
+theorem end_propagates_to_target (cfg : Cfg) (st : Nat) (ahead early : Bytes) (up down : List Ev)
     (h : closes up = true) :
     ∃ ws : List Bytes,
-      (handleConnect cfg (.ok ahead) early up down).toTarget =
+      (handleConnect cfg (.answered st ahead) early up down).toTarget =
         ws.map .write ++ [.closeWrite] ++ releaseActs (closes down) .graceful ∧
       ws.flatten = early ++ sentBy up := by
   have h' : (endOf up).isSome = true := h
@@ -64,10 +64,10 @@ theorem end_propagates_to_target (cfg : Cfg) (ahead early : Bytes) (up down : Li
     · simp [writesOf_flatten]
 
 /-- The same for the target→client copy. -/
-theorem end_propagates_to_client (cfg : Cfg) (ahead early : Bytes) (up down : List Ev)
+theorem end_propagates_to_client (cfg : Cfg) (st : Nat) (ahead early : Bytes) (up down : List Ev)
     (h : closes down = true) :
     ∃ ws : List Bytes,
-      (handleConnect cfg (.ok ahead) early up down).toClient =
+      (handleConnect cfg (.answered st ahead) early up down).toClient =
         ws.map .write ++ [.closeWrite] ++ releaseActs (closes up) .graceful ∧
       ws.flatten = ahead ++ sentBy down := by
   have h' : (endOf down).isSome = true := h
@@ -83,33 +83,33 @@ theorem end_propagates_to_client (cfg : Cfg) (ahead early : Bytes) (up down : Li
 
 /-- When the client finishes sending, the target is told so (CloseWrite) without any further input,
 exactly once, and after every byte the client sent before. -/
-theorem eof_propagates_to_target (cfg : Cfg) (ahead early : Bytes) (up down : List Ev)
+theorem eof_propagates_to_target (cfg : Cfg) (st : Nat) (ahead early : Bytes) (up down : List Ev)
     (h : Ev.eof ∈ up) :
     ∃ ws : List Bytes,
-      (handleConnect cfg (.ok ahead) early up down).toTarget =
+      (handleConnect cfg (.answered st ahead) early up down).toTarget =
         ws.map .write ++ [.closeWrite] ++ releaseActs (closes down) .graceful ∧
       ws.flatten = early ++ sentBy up :=
-  end_propagates_to_target cfg ahead early up down (mem_eof_closes up h)
+  end_propagates_to_target cfg st ahead early up down (mem_eof_closes up h)
 
 /-- When the target finishes sending, the client is told so without any further input, exactly
 once, and after every byte the target sent before. -/
-theorem eof_propagates_to_client (cfg : Cfg) (ahead early : Bytes) (up down : List Ev)
+theorem eof_propagates_to_client (cfg : Cfg) (st : Nat) (ahead early : Bytes) (up down : List Ev)
     (h : Ev.eof ∈ down) :
     ∃ ws : List Bytes,
-      (handleConnect cfg (.ok ahead) early up down).toClient =
+      (handleConnect cfg (.answered st ahead) early up down).toClient =
         ws.map .write ++ [.closeWrite] ++ releaseActs (closes up) .graceful ∧
       ws.flatten = ahead ++ sentBy down :=
-  end_propagates_to_client cfg ahead early up down (mem_eof_closes down h)
+  end_propagates_to_client cfg st ahead early up down (mem_eof_closes down h)
 
 /-- No end is told "end of stream", and no connection is closed, while the copy from the other end
 is still running (the other end has neither finished sending nor broken). -/
-theorem no_spurious_eof (cfg : Cfg) (ahead early : Bytes) (up down : List Ev) :
+theorem no_spurious_eof (cfg : Cfg) (st : Nat) (ahead early : Bytes) (up down : List Ev) :
     (closes up = false →
-      eofSeen (handleConnect cfg (.ok ahead) early up down).toTarget = false ∧
-      finalClose (handleConnect cfg (.ok ahead) early up down).toTarget = none) ∧
+      eofSeen (handleConnect cfg (.answered st ahead) early up down).toTarget = false ∧
+      finalClose (handleConnect cfg (.answered st ahead) early up down).toTarget = none) ∧
     (closes down = false →
-      eofSeen (handleConnect cfg (.ok ahead) early up down).toClient = false ∧
-      finalClose (handleConnect cfg (.ok ahead) early up down).toClient = none) := by
+      eofSeen (handleConnect cfg (.answered st ahead) early up down).toClient = false ∧
+      finalClose (handleConnect cfg (.answered st ahead) early up down).toClient = none) := by
   constructor
   · intro hc
     simp [handleConnect, handleConnectWith, upPump, downPump, run_shape, Pump.finished, closes,
@@ -120,11 +120,11 @@ theorem no_spurious_eof (cfg : Cfg) (ahead early : Bytes) (up down : List Ev) :
 
 /-- On connections that do not break (only data and EOF events) "the copy has ended" is exactly
 "the end finished sending": the statements above then read as in the property text. -/
-theorem no_spurious_eof_clean (cfg : Cfg) (ahead early : Bytes) (up down : List Ev)
+theorem no_spurious_eof_clean (cfg : Cfg) (st : Nat) (ahead early : Bytes) (up down : List Ev)
     (hu : ∀ e ∈ up, e.ending = none ∨ e = .eof) (hd : ∀ e ∈ down, e.ending = none ∨ e = .eof) :
-    (Ev.eof ∉ up → eofSeen (handleConnect cfg (.ok ahead) early up down).toTarget = false) ∧
-    (Ev.eof ∉ down → eofSeen (handleConnect cfg (.ok ahead) early up down).toClient = false) := by
-  have h := no_spurious_eof cfg ahead early up down
+    (Ev.eof ∉ up → eofSeen (handleConnect cfg (.answered st ahead) early up down).toTarget = false) ∧
+    (Ev.eof ∉ down → eofSeen (handleConnect cfg (.answered st ahead) early up down).toClient = false) := by
+  have h := no_spurious_eof cfg st ahead early up down
   constructor
   · intro hn
     refine (h.1 ?_).1
@@ -151,22 +151,40 @@ theorem dial_failure_answer_independent_of_error_kind (cfg : Cfg) (k k' : DialEr
     handleConnect cfg (.failed k) early up down = handleConnect cfg (.failed k') early up down := by
   simp [handleConnect, handleConnectWith]
 
-/-- A CONNECT whose dial succeeds is answered 200 on every path. -/
-theorem dial_success_200 (cfg : Cfg) (ahead early : Bytes) (up down : List Ev) :
-    (handleConnect cfg (.ok ahead) early up down).status = 200 := by
+/-- The status the client is answered with is the one `connect` came back with: 200 for a direct
+dial, the downstream proxy's own status otherwise — for every 2xx acknowledgement (200, 201, 202,
+204, 299, …) the client gets that 2xx, and everything proved in this file about the tunnel holds
+for it (all theorems are ∀ `st`). -/
+theorem answer_status_relayed (cfg : Cfg) (st : Nat) (ahead early : Bytes) (up down : List Ev) :
+    (handleConnect cfg (.answered st ahead) early up down).status = st := by
+  simp [handleConnect, handleConnectWith]
+
+/-- Every 2xx from the downstream proxy establishes the tunnel: the client is acknowledged with a
+2xx, the bytes read ahead with the head go to the client first, early data goes to the target. -/
+theorem every_2xx_establishes_the_tunnel (cfg : Cfg) (st : Nat) (ahead early : Bytes) (up down : List Ev)
+    (h : (Connect.answered st ahead).established = true) :
+    let o := handleConnect cfg (.answered st ahead) early up down
+    o.status / 100 = 2 ∧ bytesOf o.toClient = ahead ++ sentBy down ∧ bytesOf o.toTarget = early ++ sentBy up := by
+  have hs : st / 100 = 2 := by simpa [Connect.established] using h
+  exact ⟨by simp [handleConnect, handleConnectWith, hs], tunnel_transparent_down cfg st ahead early up down,
+    tunnel_transparent_up cfg st ahead early up down⟩
+
+/-- A direct dial that succeeds is answered 200. -/
+theorem dial_success_200 (cfg : Cfg) (early : Bytes) (up down : List Ev) :
+    (handleConnect cfg (.answered 200 []) early up down).status = 200 := by
   simp [handleConnect, handleConnectWith]
 
 /-- Both connections are released (handler returns, deferred Close of both) exactly when both
 copies have ended (each end finished sending, or its connection broke) — no further input is
 needed, and no connection is closed while one direction is still open. -/
-theorem both_released_iff_both_ended (cfg : Cfg) (ahead early : Bytes) (up down : List Ev) :
-    (handleConnect cfg (.ok ahead) early up down).released = true ↔ (closes up = true ∧ closes down = true) := by
+theorem both_released_iff_both_ended (cfg : Cfg) (st : Nat) (ahead early : Bytes) (up down : List Ev) :
+    (handleConnect cfg (.answered st ahead) early up down).released = true ↔ (closes up = true ∧ closes down = true) := by
   simp [handleConnect, handleConnectWith, upPump, downPump, run_shape, Pump.finished, closes]
 
 /-- On connections that do not break: released exactly when both ends have finished sending. -/
-theorem both_released_iff_both_finished (cfg : Cfg) (ahead early : Bytes) (up down : List Ev)
+theorem both_released_iff_both_finished (cfg : Cfg) (st : Nat) (ahead early : Bytes) (up down : List Ev)
     (hu : ∀ e ∈ up, e.ending = none ∨ e = .eof) (hd : ∀ e ∈ down, e.ending = none ∨ e = .eof) :
-    (handleConnect cfg (.ok ahead) early up down).released = true ↔ (Ev.eof ∈ up ∧ Ev.eof ∈ down) := by
+    (handleConnect cfg (.answered st ahead) early up down).released = true ↔ (Ev.eof ∈ up ∧ Ev.eof ∈ down) := by
   rw [both_released_iff_both_ended, closes_iff_mem_eof_of_clean up hu, closes_iff_mem_eof_of_clean down hd]
 
 /-! ### Regression statements about the previous form of the client-bound pump
@@ -196,7 +214,7 @@ example : readerWriteToLoop tcp tcp = .splice ∧ readerWriteToLoop wrapped tcp 
     readerWriteToLoop tcp wrapped = .copy32k ∧ readerWriteToLoop wrapped wrapped = .bufio4k := by decide
 /-- test: one concrete run — early data, traffic both ways, client finishes first -/
 example :
-    let o := handleConnect ⟨wrapped, tcp⟩ (.ok [9]) [1, 2] [.data [3], .eof] [.data [4, 5]]
+    let o := handleConnect ⟨wrapped, tcp⟩ (.answered 200 [9]) [1, 2] [.data [3], .eof] [.data [4, 5]]
     bytesOf o.toTarget = [1, 2, 3] ∧ eofSeen o.toTarget = true ∧
     bytesOf o.toClient = [9, 4, 5] ∧ eofSeen o.toClient = false ∧ o.released = false := by
   simp [tunnel_transparent_up, tunnel_transparent_down, sentBy]
